@@ -279,7 +279,51 @@ func ruleC02RecordMatchesKey(c *Ctx) {
 		encOK := false
 		if cv, ok := resolve(fields["EncryptedKey"]).(*ssa.Extract); ok {
 			if call, isC := cv.Tuple.(*ssa.Call); isC && cv.Index == 0 {
-				if act, isAcc := accessorAction(call); isAcc && resolve(call.Call.Args[0]) == ssa.Value(key) {
+				// the wrap may live in a helper that is handed the key (and its parent) and forwards the accessor's results
+				encKey := ssa.Value(key)
+				parentName := ""
+				if parentIdx >= 0 {
+					parentName = f.Params[parentIdx].Name()
+				}
+				for hop := 0; hop < 2; hop++ {
+					if _, isAcc := accessorAction(call); isAcc {
+						break
+					}
+					h := staticCallee(call)
+					if h == nil || h.Blocks == nil || h.Pkg == nil || h.Pkg.Pkg.Path() != pkgApp {
+						break
+					}
+					var nk ssa.Value
+					np := ""
+					for k, a := range call.Call.Args {
+						if k >= len(h.Params) {
+							continue
+						}
+						if resolve(a) == encKey {
+							nk = h.Params[k]
+						}
+						if parentName != "" && strings.HasSuffix(accessPath(a), "P:"+parentName) {
+							np = h.Params[k].Name()
+						}
+					}
+					var inner *ssa.Call
+					for _, hr := range returnsOf(h) {
+						if len(hr.Results) != 2 {
+							continue
+						}
+						if ex0, ok0 := resolve(returnedValue(hr, 0)).(*ssa.Extract); ok0 && ex0.Index == 0 {
+							if ic, isIC := ex0.Tuple.(*ssa.Call); isIC {
+								inner = ic
+							}
+						}
+					}
+					if nk == nil || inner == nil || (parentName != "" && np == "") {
+						break
+					}
+					c.FuncsAnalysed[shortName(h)] = true
+					call, encKey, parentName = inner, nk, np
+				}
+				if act, isAcc := accessorAction(call); isAcc && resolve(call.Call.Args[0]) == encKey {
 					af := actionFunc(act)
 					if af != nil {
 						switch parentIdx {
@@ -298,7 +342,7 @@ func ruleC02RecordMatchesKey(c *Ctx) {
 									return
 								}
 								act2, isAcc2 := accessorAction(jc)
-								if !isAcc2 || !strings.HasSuffix(accessPath(jc.Call.Args[0]), "P:"+f.Params[parentIdx].Name()) {
+								if !isAcc2 || !strings.HasSuffix(accessPath(jc.Call.Args[0]), "P:"+parentName) {
 									return
 								}
 								af2 := actionFunc(act2)
